@@ -131,3 +131,33 @@ func C14ParQuery() {
 	}
 	zz.Cover("joined")
 }
+
+// C14ParXml: two goroutines each stream their own XML document carrying namespace declarations
+// (the same URI under different prefixes) through their own XMLStreamReader: nothing a reader
+// writes while parsing is shared with the other reader, and each delivers what it delivers alone.
+func C14ParXml() {
+	docA := []byte(`<R xmlns:p="u:p"><p:T>1</p:T></R>`)
+	docB := []byte(`<R xmlns:q="u:p"><q:T>2</q:T></R>`)
+	run := func(doc []byte) string {
+		sp, err := NewXMLStreamReader(&zzChunkReader{data: doc, failAt: -1}, "/R/*")
+		if err != nil {
+			return "new:" + err.Error()
+		}
+		n, err := sp.Read()
+		if err != nil {
+			return "read:" + err.Error()
+		}
+		return zzSer(n)
+	}
+	wantA, wantB := run(append([]byte{}, docA...)), run(append([]byte{}, docB...))
+	for it, n := 0, zz.Stress(300); it < n; it++ {
+		var ga, gb string
+		zz.Par(func() {
+			ga = run(append([]byte{}, docA...))
+		}, func() {
+			gb = run(append([]byte{}, docB...))
+		})
+		zz.Assert(ga == wantA && gb == wantB, "each goroutine's record equals the one it delivers when run alone")
+	}
+	zz.Cover("joined")
+}
